@@ -104,6 +104,20 @@ func (c *c04Case) Exec() {
 			if k := o.SeekTo % (len(sv) + 1); k < len(sv) {
 				target = sv[k].off
 			}
+			if c.Direct && target%4096 != 0 {
+				// direct I/O can only seek to block boundaries: the nearest surviving boundary that is one, else stay
+				target = w.Size()
+				for _, x := range sv {
+					if x.off%4096 == 0 && x.off > 0 {
+						target = x.off
+					}
+				}
+				if target%4096 != 0 {
+					o.Off = w.Size()
+					offs = append(offs, o.Off)
+					continue
+				}
+			}
 			o.Off = target
 			if err := w.Seek(target); err != nil {
 				o.Err = classifyErr(err)
@@ -427,6 +441,26 @@ func genC04(r *rand.Rand, tier string) []Case {
 			c.ReadProg = append(c.ReadProg, r.Intn(2) == 0)
 		}
 		cases = append(cases, c)
+	}
+	if dio {
+		// direct I/O with a seek back to a block boundary and a shorter rewrite: what lies beyond must be cut off.
+		// The first record is sized so that (with the usual 5-byte checksum varint) it ends at offset 4096.
+		for k := 0; k < 3; k++ {
+			c := &c04Case{Comp: 0, Direct: true, WBuf: 4096, RBuf: 4096, SeekLen: 4096}
+			first := make([]byte, 4076)
+			r.Read(first)
+			c.Prog = append(c.Prog, wOp{Op: "write", Rec: first})
+			for j := 0; j < 3+r.Intn(3); j++ {
+				p := make([]byte, 1200+r.Intn(800))
+				r.Read(p)
+				c.Prog = append(c.Prog, wOp{Op: "write", Rec: p})
+			}
+			c.Prog = append(c.Prog, wOp{Op: "seek", SeekTo: 1}, wOp{Op: "write", Rec: []byte("short rewrite")})
+			for j := 0; j < 4; j++ {
+				c.ReadProg = append(c.ReadProg, j%2 == 0)
+			}
+			cases = append(cases, c)
+		}
 	}
 	return cases
 }
